@@ -32,7 +32,7 @@ func init() {
 		MinEvals:        floor(3200, 110000),
 		MinDistinct:     floor(1500, 40000),
 		RequiredCells: func(string) []string {
-			cells := []string{"purity/chain-verdicts/history", "purity/chain-verdicts/concurrent", "purity/chain-verdicts/concurrent-focused", "chain-purity/ExecutionAllowed/same-proofs-arguments/model=deny", "chain-purity/ExecutionAllowed/shared-lower-links/model=deny", "non-finite", "deep-nesting", "twins", "twins/true-then-false", "twins/false-then-true", "twins/same-policy", "twins/different-links", "scale", "scale/long-chain", "scale/many-statements", "scale/history", "heterogeneous", "heterogeneous/some-statement-false", "hook/returns-satisfying", "hook/returns-violating", "hook/returns-empty", "hook/returns-subset", "hook/error", "hook/sees-token-args", "mono/add-statement", "mono/add-link", "pattern/only-root", "pattern/only-leaf", "all-true"}
+			cells := []string{"purity/chain-verdicts/history", "purity/chain-verdicts/concurrent", "purity/chain-verdicts/concurrent-focused", "chain-purity/ExecutionAllowed/same-proofs-arguments/model=deny", "chain-purity/ExecutionAllowed/shared-lower-links/model=deny", "non-finite", "typed-arguments/typed", "typed-arguments/representation", "typed-arguments/reference-false", "typed-arguments/required-field-not-there", "deep-nesting", "twins", "twins/true-then-false", "twins/false-then-true", "twins/same-policy", "twins/different-links", "scale", "scale/long-chain", "scale/many-statements", "scale/history", "heterogeneous", "heterogeneous/some-statement-false", "hook/returns-satisfying", "hook/returns-violating", "hook/returns-empty", "hook/returns-subset", "hook/error", "hook/sees-token-args", "mono/add-statement", "mono/add-link", "pattern/only-root", "pattern/only-leaf", "all-true"}
 			for _, lp := range []string{"first", "middle", "last"} {
 				for _, sp := range []string{"first", "middle", "last", "only"} {
 					cells = append(cells, "false/link="+lp+"/stmt="+sp)
@@ -151,6 +151,7 @@ func runC03(w *mon.W) {
 	}
 	c03Heterogeneous(w)
 	c03NonFinite(w)
+	c03Typed(w)
 	c03Scale(w)
 	c03Twins(w)
 	c03Deep(w)
